@@ -37,7 +37,7 @@ RULE = ('one evaluation = one simulated run: a victim client performs a short se
 ASSUMPTIONS = ['the holder is a raw connection holding BEGIN IMMEDIATE (what a long transaction, check() or a slow writer in another process looks like)',
                'SQLite busy timeout is emulated event-driven in virtual time']
 PROBES = ('lock_taken', 'timeout_raised', 'failure_value', 'retry_waited', 'lock_before_begin_after_file', 'lockfree_lookup_under_lock',
-          'bulk_partial_timeout', 'replaced_under_lookup', 'open_with_transient_busy', 'open_failed_loudly')
+          'bulk_partial_timeout', 'replaced_under_lookup', 'open_with_transient_busy', 'open_failed_loudly', 'expired_during_wait')
 TECHNIQUE = 'deterministic simulation with lock-contention injection: lock acquisition point enumerated over the seam events of the call, virtual-time busy timeout, before/after physical state comparison'
 LEVEL_TEXT = ('fault enumeration: calls are sampled by seed; for each call the instant at which another connection takes the write '
               'lock is enumerated over every seam event of the call (thorough tier) and the hold time is drawn on both sides of the '
@@ -100,7 +100,33 @@ def gen_case(seed, tier):
     cfg = {'target': target, 'settings': settings, 'timeout': timeout, 'shards': rng.choice((1, 2, 3)), 'maxlen': None,
            'topology': 'procs', 'sched': {'kind': 'uniform'}, 'clock': {'mode': 'frozen'}, 'yield_clock': False,
            'hold': hold, 'dur': dur, 'step_cap': 80000}
-    if target == 'cache' and rng.random() < 0.08:
+    if target == 'cache' and rng.random() < 0.10:
+        # the item the call is about expires WHILE the call waits for the lock (retry asked for): by the time the call can
+        # act the item is gone, so it is not pulled, popped, touched back to life, incremented or reported present (C04)
+        cfg['expires_in_wait'] = True
+        cfg['settings'] = settings = {'disk_min_file_size': mfs}
+        cfg['hold'] = 'long'
+        ttl = rng.choice((0.5, 2.0))
+        cfg['dur'] = ttl * rng.choice((2, 5))
+        cfg['timeout'] = timeout = rng.choice((0.05, 60))
+        name = rng.choice(('pull', 'peek', 'pop', 'touch', 'incr', 'add', 'delete', 'get'))
+        if name in ('pull', 'peek'):
+            setup = [{'op': 'push', 'v': c05.uniq_value(rng, 0, 0, big_n), 'prefix': 'q', 'expire': ttl, 'retry': True}]
+            op = {'op': name, 'prefix': 'q', 'retry': True}
+        elif name == 'incr':
+            setup = [{'op': 'set', 'k': 'n', 'v': 41, 'expire': ttl, 'retry': True}]
+            op = {'op': 'incr', 'k': 'n', 'retry': True, 'default': rng.choice((0, 100))}
+        else:
+            setup = [{'op': 'set', 'k': 'a', 'v': c05.uniq_value(rng, 0, 0, big_n), 'expire': ttl, 'retry': True}]
+            op = {'op': name, 'k': 'a', 'retry': True}
+            if name == 'add':
+                op['v'] = c05.uniq_value(rng, 1, 1, big_n)
+            if name == 'touch':
+                op['expire'] = 1000
+            if name in ('pop', 'get'):
+                op['default'] = 'dflt'
+        cfg['ttl'] = ttl
+    elif target == 'cache' and rng.random() < 0.08:
         # a second handle opens the directory (no arguments) while the holder has the write lock, and - enumerated over the
         # statements of the open - with one statement answered "database is locked" once (what a reader meets during WAL
         # recovery or the last-close checkpoint of another process): the open waits / retries and finds the stored settings
@@ -408,6 +434,22 @@ def judge(case, base, run, violations, probes):
     if name in ('r_throttle', 'r_stampede'):
         # these store clock readings (last admission time, measured duration): after a wait the values differ by design
         same_as_baseline = res == bres and [len(x) for x in rows_a] == [len(x) for x in brows_a]
+    if cfg.get('expires_in_wait'):
+        # did the call have to wait past the expiry?  (lock obtained before the statement that takes the write lock)
+        lock_at = d['lock_at'] or [None, None]
+        before_begin = (case.get('lock') or {}).get('k') == 1 or (lock_at[0] == 'sql' and str(lock_at[1]).startswith('BEGIN'))
+        if not before_begin or name == 'get':
+            return      # the lock point lies after the call's own BEGIN (it does not wait), or the lookup takes no lock
+        probes['expired_during_wait'] = 1
+        from ..ops import fp_spec
+        want = {'pull': ('ok', 't(None,None)'), 'peek': ('ok', 't(None,None)'), 'pop': ('ok', fp_spec('dflt')), 'touch': ('ok', 'False'),
+                'delete': ('ok', 'False'), 'add': ('ok', 'True'),
+                'incr': ('ok', fp((op.get('default', 0) if name == 'incr' else 0) + 1))}[name]
+        if res != want:
+            violations.append({'rule': 'C14/expired-while-waiting', 'sig': '%s.%s' % (kind, name),
+                               'detail': 'op %s waited %.1fs for the lock while its item (ttl %.1fs) expired: result %s, an expired item '
+                                         'gives %s' % (json.dumps(op)[:100], cfg['dur'], cfg['ttl'], res, want)})
+        return
     if cfg.get('replace'):
         probes['replaced_under_lookup'] = 1
         new_fp = ('ok', fp(REPLACED))
